@@ -60,7 +60,7 @@ func (f *Expt) Call(s *slip.Scope, args slip.List, depth int) (result slip.Objec
 				if z.IsInt64() {
 					return slip.Fixnum(z.Int64())
 				}
-				return (*slip.Bignum)(&z)
+				return slip.IntegerFromBig(&z)
 			}
 			x := math.Pow(float64(base), float64(pow))
 			if (-1.0 < x && x < 1.0) || float64(math.MaxInt64) < x || x < float64(math.MinInt64) {
